@@ -95,10 +95,18 @@ def build(case, log, ckdir):
                                    learn_step=RLParameter(min=1, max=8, dtype=int))
     npop = case["pop"]
     if loop in ("off", "on", "offline"):
-        env = E.CountVecEnv(log, ne, case["ep_len"], act) if ne > 0 else E.CountEnv(log, case["ep_len"], act)
+        img = bool(case.get("image"))
+        env = (E.CountVecEnv(log, ne, case["ep_len"], act, image=img) if ne > 0
+               else E.CountEnv(log, case["ep_len"], act, image=img))
         ospace = env.single_observation_space if ne > 0 else env.observation_space
         aspace = env.single_action_space if ne > 0 else env.action_space
-        pop = create_population(algo, ospace, aspace, dict(NET), hp, hp_config=hpc, population_size=npop,
+        net = dict(NET)
+        if img:     # the agents see channels-first images; the loop converts with swap_channels=True
+            ospace = spaces.Box(-1.0, 1.0, (E.IMG[2], E.IMG[0], E.IMG[1]), np.float32)
+            net = {"encoder_config": {"channel_size": [3], "kernel_size": [3], "stride_size": [1]},
+                   "head_config": {"hidden_size": [16]}}
+            kw["swap_channels"] = True
+        pop = create_population(algo, ospace, aspace, net, hp, hp_config=hpc, population_size=npop,
                                 num_envs=max(ne, 1))
     elif loop == "bandit":
         env = E.CountBanditEnv(log, arms=3, dim=2)
@@ -107,9 +115,14 @@ def build(case, log, ckdir):
         pop = create_population(algo, ospace, aspace, dict(NET), hp, hp_config=hpc, population_size=npop)
     else:
         ids = ["a_0", "a_1"] if not case.get("grouped") else ["a_0", "a_1", "b_0"]
+        if case.get("ids") == "unsorted":      # caller-provided order that is neither sorted nor grouped
+            ids = ["b_1", "a_0", "b_0"] if case.get("grouped") else ["z_0", "a_0"]
         act = "box" if case.get("act") == "box" else "discrete"
-        env = (E.CountParallelVecEnv(log, ne, case["ep_len"], act, ids) if ne > 0
-               else E.CountParallelEnv(log, case["ep_len"], act, ids))
+        rev = bool(case.get("rev"))            # the environment's dictionaries come in another key order
+        env = (E.CountParallelVecEnv(log, ne, case["ep_len"], act, ids, rev=rev) if ne > 0
+               else E.CountParallelEnv(log, case["ep_len"], act, ids, rev=rev))
+        if case.get("sum_scores") is not None:
+            kw["sum_scores"] = bool(case["sum_scores"])
         hp["AGENT_IDS"] = ids
         ospaces = [env._os[a] for a in ids]
         aspaces = [env._as[a] for a in ids]
@@ -136,7 +149,8 @@ def build(case, log, ckdir):
     if loop == "offline":
         n = case.get("dataset", 12)
         rs = np.random.RandomState(case.get("seed", 0))
-        kw["dataset"] = {"observations": rs.rand(n, 4).astype(np.float32), "actions": rs.randint(0, 2, (n, 1)),
+        oshape = E.IMG if case.get("image") else (4,)       # images are stored channels-last, the loop swaps them
+        kw["dataset"] = {"observations": rs.rand(n, *oshape).astype(np.float32), "actions": rs.randint(0, 2, (n, 1)),
                          "rewards": (rs.randint(0, 4, (n, 1)) * 0.25).astype(np.float32),
                          "terminals": (np.arange(n) % 4 == 3).reshape(n, 1)}
     return env, pop, memory, kw
@@ -207,7 +221,7 @@ def run_loop(case, build_dir: Path, guard_s=60):
 
         def mk_save(orig):
             def save_checkpoint(self, path, *a, **k):
-                log.append(("save", id(self), os.path.basename(str(path))))
+                log.append(("save", id(self), os.path.basename(str(path)), int(self.index), [int(x) for x in self.steps]))
                 return orig(self, path, *a, **k)
             return save_checkpoint
 
@@ -243,7 +257,7 @@ def run_loop(case, build_dir: Path, guard_s=60):
             mk = case.get("mut", "none")
             tkw["mutation"] = Mut(no_mutation=1.0 if mk == "none" else 0.2,
                                   architecture=0.4 if mk == "arch" else 0.0, new_layer_prob=0.5,
-                                  parameters=0.4 if mk == "param" else 0.0, activation=0.0,
+                                  parameters=0.4 if mk == "param" else 0.0, activation=0.6 if mk == "act" else 0.0,
                                   rl_hp=0.8 if mk == "hp" else 0.0, mutation_sd=0.1,
                                   mutate_elite=bool(case.get("mutate_elite", False)), rand_seed=seed)
         if case.get("checkpoint"):
@@ -286,6 +300,16 @@ def run_loop(case, build_dir: Path, guard_s=60):
         obs["final_fp"] = [fingerprint(a) for a in ret_pop]
         obs["ret_fit_rows"] = [(len(r) if isinstance(r, (list, tuple)) else -1) for r in ret_fit]
         obs["files"] = sorted(p.name for p in ckdir.glob("*"))
+        # checkpoints written by the loop (right after a mutation, no learn step in between) can be loaded back
+        obs["reloaded"] = []
+        for pth in sorted(ckdir.glob("ck_*.pt"))[-2:] + sorted(ckdir.glob("elite*.pt"))[:1]:
+            try:
+                a2 = cls.load(str(pth))
+                obs["reloaded"].append({"file": pth.name, "ok": True, "index": int(a2.index), "steps": [int(x) for x in a2.steps],
+                                        "nfit": len(a2.fitness), "learn_step": int(getattr(a2, "learn_step", 1)),
+                                        "batch_size": int(a2.batch_size)})
+            except Exception as e:
+                obs["reloaded"].append({"file": pth.name, "ok": False, "error": f"{type(e).__name__}: {str(e)[:200]}"})
         if memory is not None:
             obs["mem_len"] = int(len(memory))
     except Timeout as e:
@@ -314,8 +338,8 @@ def parse_log(log, npop):
     cur = None
 
     def new():
-        return {"rollouts": [], "resets_train": 0, "tests": [], "eval_steps": 0, "select": None, "mutation": None,
-                "saves": [], "pre": None}
+        return {"rollouts": [], "resets_train": 0, "tests": [], "eval_steps": 0, "eval_resets": 0, "select": None,
+                "mutation": None, "saves": [], "pre": None}
 
     cur = new()
     in_test = False
@@ -352,6 +376,8 @@ def parse_log(log, npop):
         elif k == "reset":
             if not in_test:
                 cur["resets_train"] += 1
+            else:
+                cur["eval_resets"] += 1
         elif k == "clone":
             clones[ev[2]] = ev[1]
         elif k == "select_begin":
@@ -378,6 +404,7 @@ def parse_log(log, npop):
             if phase == "test":
                 phase = "post"
             cur["saves"].append(ev[2])
+            cur.setdefault("saved_agents", {})[ev[2]] = {"index": ev[3], "steps": ev[4]}
     if cur["tests"] or cur["rollouts"] or cur["pre"]:
         gens.append(cur)
     # drop python ids (not stable, not part of any comparison)
